@@ -500,6 +500,38 @@ type run struct {
 
 var cached *run
 
+var purged bool
+
+// tmpBase prefers a memory file system: ffldb and leveldb fsync on every
+// commit, which dominates the run time on a busy disk.
+func tmpBase() string {
+	if fi, err := os.Stat("/dev/shm"); err == nil && fi.IsDir() {
+		if f, err := os.CreateTemp("/dev/shm", "c04probe"); err == nil {
+			f.Close()
+			os.Remove(f.Name())
+			return "/dev/shm"
+		}
+	}
+	return os.TempDir()
+}
+
+// purgeStale removes image directories left behind by earlier processes (the
+// last workload of a process is still cached when it exits).
+func purgeStale() {
+	if purged {
+		return
+	}
+	purged = true
+	ents, _ := os.ReadDir(tmpBase())
+	for _, e := range ents {
+		if strings.HasPrefix(e.Name(), "c04-") {
+			if fi, err := e.Info(); err == nil && time.Since(fi.ModTime()) > 20*time.Minute {
+				os.RemoveAll(filepath.Join(tmpBase(), e.Name()))
+			}
+		}
+	}
+}
+
 func (r *run) close() {
 	if r != nil && r.root != "" {
 		os.RemoveAll(r.root)
@@ -510,8 +542,8 @@ func errClass(err error) string {
 	if err == nil {
 		return "ok"
 	}
-	if re, ok := err.(blockchain.RuleError); ok {
-		return "rule" + strconv.Itoa(int(re.ErrorCode))
+	if _, ok := err.(blockchain.RuleError); ok {
+		return "rej"
 	}
 	return "err"
 }
@@ -519,10 +551,17 @@ func errClass(err error) string {
 func (r *run) img(k int) string { return filepath.Join(r.root, fmt.Sprintf("img%d", k)) }
 
 func doRun(key string, c cfg, descs []blkDesc, ops []string) *run {
-	root, err := os.MkdirTemp("", "c04-")
+	purgeStale()
+	root, err := os.MkdirTemp(tmpBase(), "c04-")
 	if err != nil {
 		panic(err)
 	}
+	t0 := time.Now()
+	defer func() {
+		if os.Getenv("VERIF_C04_ECHO") != "" {
+			fmt.Fprintf(os.Stderr, "doRun %v\n", time.Since(t0))
+		}
+	}()
 	r := &run{key: key, root: root, w: buildWorld(descs), c: c, ops: ops}
 	live := filepath.Join(root, "live")
 	raw, err := openDB(live, c, true)
@@ -531,14 +570,13 @@ func doRun(key string, c cfg, descs []blkDesc, ops []string) *run {
 	}
 	r.pers = []string{""}
 	r.window = []string{"-"}
-	r.acked = [][]int{nil}
-	var ackedNow []int
+	type ackRec struct{ id, e int }
+	var acks []ackRec
 	cdb := &countDB{DB: raw}
 	cdb.after = func(k int) {
 		copyTree(live, r.img(k))
 		r.pers = append(r.pers, r.w.persisted(raw))
 		r.window = append(r.window, "-")
-		r.acked = append(r.acked, append([]int(nil), ackedNow...))
 	}
 	ch, err := r.w.newChain(cdb, c)
 	if err != nil {
@@ -589,16 +627,21 @@ func doRun(key string, c cfg, descs []blkDesc, ops []string) *run {
 					r.window[k] = fmt.Sprintf("%d:%d", old, now)
 				}
 			}
-			if err == nil || res != "err" {
-				// storage acknowledged (known to the index) when it was accepted or
-				// rejected after storage; only accepted blocks are listed
-				if err == nil && !orphan {
-					ackedNow = append(ackedNow, id)
-				}
+			// storage acknowledged: ProcessBlock returned without error
+			if err == nil && !orphan {
+				acks = append(acks, ackRec{id, cdb.n})
 			}
 		}
 	}
 	r.n = cdb.n
+	r.acked = make([][]int, r.n+1)
+	for k := 1; k <= r.n; k++ {
+		for _, a := range acks {
+			if a.e <= k {
+				r.acked[k] = append(r.acked[k], a.id)
+			}
+		}
+	}
 	r.finTip = r.w.id(&ch.BestSnapshot().Hash)
 	r.finUtx = r.w.utxoList(ch)
 	raw.Close()
@@ -659,9 +702,10 @@ func (r *run) reopen(k int) string {
 }
 
 func (p P) Exec(line string) string {
+	t0 := time.Now()
 	out := p.exec(line)
 	if os.Getenv("VERIF_C04_ECHO") != "" {
-		fmt.Fprintf(os.Stderr, "%s\n  => %s\n", line, out)
+		fmt.Fprintf(os.Stderr, "%s\n  => %s (%v)\n", line, out, time.Since(t0))
 	}
 	return out
 }
